@@ -21,11 +21,12 @@ Section ScanFacts.
   Variables Sig Act St Ev : Type.
   Variable sig_eqb : Sig -> Sig -> bool.
   Variable sig_of : Act -> Sig.
+  Variable is_reject : Ev -> bool.
   Notation disp := (Router.disp Sig Act St Ev).
   Notation result := (Router.result St Ev).
-  Notation call_d := (Router.call_d Sig Act St Ev sig_eqb sig_of).
+  Notation call_d := (Router.call_d Sig Act St Ev sig_eqb sig_of is_reject).
   Notation run_next := (Router.run_next Sig Act St Ev).
-  Notation run_scan := (Router.run_scan Sig Act St Ev sig_eqb sig_of).
+  Notation run_scan := (Router.run_scan Sig Act St Ev sig_eqb sig_of is_reject).
   Variable X : Type.
   Variable rt : X -> Act -> St -> X * result.
 
@@ -93,8 +94,8 @@ Section ValidUse.
   Notation dispatch_c := (Dispatch.dispatch_c Ent Pay).
   Notation dispatch_nc := (Dispatch.dispatch_nc Ent Pay).
   Notation tag_events := (Dispatch.tag_events Pay empty_pay).
-  Notation run_scan := (Router.run_scan string action rst event String.eqb sig_of).
-  Notation call_d := (Router.call_d string action rst event String.eqb sig_of).
+  Notation run_scan := (Router.run_scan string action rst event String.eqb sig_of ev_is_reject).
+  Notation call_d := (Router.call_d string action rst event String.eqb sig_of ev_is_reject).
   Notation Coh := (Router.Coh string action rst event String.eqb).
   Notation pst := (Dispatch.pst Ent Pay).
   Notation prouter := (Dispatch.prouter Ent Pay pnone ptime).
@@ -208,7 +209,10 @@ Section ValidUse.
     (* B's own call *)
     cbn [Dispatch.disp_of] in E2. unfold Dispatch.comp_disp in E2. cbn [Router.call_d] in E2.
     destruct (call_comp B a s1) as [[s1' evB]|] eqn:CB; [|inversion E2].
-    apply run_next_acc in E2. destruct E2 as (more & E2). subst ev2.
+    assert (E2' : exists more, ev2 = (evB ++ more)%list).
+    { destruct (existsb ev_is_reject evB); [inversion E2; subst; exists []; symmetry; apply app_nil_r|].
+      apply run_next_acc in E2. exact E2. }
+    clear E2. destruct E2' as (more & E2). subst ev2.
     destruct s1 as [st1 tr1]. cbn [fst] in A1. apply call_comp_cases in CB.
     destruct CB as (key' & mp & F' & _ & G' & [CB|CB]).
     - destruct CB as (red' & method' & st1' & fs & out & me & R & Mt & GS & RR & _ & EV).
